@@ -117,6 +117,7 @@ struct FnDir {
     loops: BTreeMap<usize, String>,
     loop_iters: BTreeMap<usize, String>,
     loop_ends: BTreeMap<usize, String>, // text appended at the end of loop k's body
+    loop_afters: BTreeMap<usize, String>, // text put right AFTER loop statement k (the loop must be in statement position)
     loop_starts: BTreeMap<usize, String>, // text inserted at the start of loop k's body
     anchors: Vec<(String, String)>, // (substring of a printed statement line, text inserted after that line)
     line: usize,
@@ -1965,6 +1966,14 @@ fn emit_fn(ctx: &mut Ctx, d: &FnDir, out: &mut String) {
         let it = d.loop_iters.get(&k).map(|s| format!("{}: ", s)).unwrap_or_default();
         body = body.replacen(&ih, &it, 1);
         let pe = format!("__VX_LOOPEND_{}__", k);
+        if let Some(at) = d.loop_afters.get(&k) {
+            // text right after the closing brace of loop k's body
+            let re = regex::Regex::new(&format!(r"{}\s*\}}", regex::escape(&pe))).unwrap();
+            if re.find_iter(&body).count() != 1 {
+                die(&format!("internal: cannot place afterloop {} in {}", k, d.path));
+            }
+            body = re.replace(&body, regex::NoExpand(&format!("{} }}\n{}\n", pe, at.trim_end()))).into_owned();
+        }
         let et = d.loop_ends.get(&k).map(|s| format!("\n{}\n", s.trim_end())).unwrap_or_default();
         body = body.replacen(&pe, &et, 1);
         let ps = format!("__VX_LOOPSTART_{}__", k);
@@ -2478,6 +2487,7 @@ fn process_text(ctx: &mut Ctx, tpl: &str, out: &mut String, depth: usize) {
                         Entry,
                         Loop(usize),
                         LoopEnd(usize),
+    AfterLoop(usize),
                         LoopStart(usize),
                         After(usize),
                     }
@@ -2511,6 +2521,10 @@ fn process_text(ctx: &mut Ctx, tpl: &str, out: &mut String, depth: usize) {
                                 Some("loopend") => {
                                     let k: usize = w2[1].parse().unwrap_or_else(|_| die("loopend needs ordinal"));
                                     sec = Sec::LoopEnd(k)
+                                }
+                                Some("afterloop") => {
+                                    let k: usize = w2[1].parse().unwrap_or_else(|_| die("afterloop needs ordinal"));
+                                    sec = Sec::AfterLoop(k)
                                 }
                                 Some("spec") => sec = Sec::Spec,
                                 Some("after") | Some("before") => {
@@ -2553,6 +2567,11 @@ fn process_text(ctx: &mut Ctx, tpl: &str, out: &mut String, depth: usize) {
                                 }
                                 Sec::LoopEnd(k) => {
                                     let e = d.loop_ends.entry(k).or_default();
+                                    e.push_str(l2);
+                                    e.push('\n');
+                                }
+                                Sec::AfterLoop(k) => {
+                                    let e = d.loop_afters.entry(k).or_default();
                                     e.push_str(l2);
                                     e.push('\n');
                                 }
